@@ -7,6 +7,7 @@
 -/
 import PyTough.Proofs.GridPhys
 import PyTough.Proofs.GridMincAll
+import PyTough.Proofs.GridPhysMore
 import PyTough.Props.C08
 namespace Props.C09
 open Py Model Model.Grid Model.Grid.World
@@ -186,6 +187,87 @@ theorem embed_conserves_volume {w : World} {sub : Grid} {c x0 x1 : Nat}
   obtain ⟨rfl, rfl⟩ := e
   exact hv rfl
 
+
+/-! ### explicit permutations and reversal subsets; the names' trip through a data file -/
+
+/-- **Every permutation, every reversal subset.**  `bl` any permutation of the grid's block objects,
+    `cl` any permutation of its connection objects, `rev` any subset of them: calling `reorder` with
+    the block names in the order `bl` and the connection names in the order `cl`, those in `rev`
+    written with their two block names swapped (`Proofs.Grid.reversalNames`), is within `pre`, leaves
+    the physical network unchanged and the grid consistent.
+    `_partial`: the extra (decidable) hypothesis says that a connection written reversed is not *also*
+    present in the grid as a second object under the swapped pair of names.  It cannot be dropped: with
+    both `(A,B)` and `(B,A)` registered, "`(A,B)` written reversed" *is* the name of the other connection,
+    `reorder` lists that one twice and loses the first (such a name list is outside `pre`; grids built
+    from a geometry never hold a pair of blocks connected in both orientations). -/
+theorem reorder_any_permutation_any_reversal_partial {w : World} (hI : Grid.Inv w) (bl cl : List Nat) (rev : Nat → Bool)
+    (hb : bl.Perm w.blocklist) (hc : cl.Perm w.connectionlist)
+    (hanti : ∀ c ∈ cl, rev c = true → dget w.connection ((w.ckey c).2, (w.ckey c).1) = none) :
+    let op := Op.reorder (bl.map w.bname) (Proofs.Grid.reversalNames w cl rev)
+    pre w op = true ∧ PhysEq w (step w op).w ∧ Grid.Inv (step w op).w := by
+  intro op
+  have hpre := Proofs.Grid.pre_reorder_of_perm hI bl cl rev hb hc hanti
+  exact ⟨hpre, reorder_preserves_phys hI _ _ hpre⟩
+
+/-- **A whole history of such calls.**  A history in which every step is a `reorder` given by an
+    explicit permutation and reversal subset of the *current* state (as above) or a `rename_blocks`
+    with a map keeping the names distinct: built step by step from these data, it is within
+    `PreAllRR`, so by `compose_preserves_phys` the final state describes the same network as the first. -/
+theorem history_of_explicit_steps_preserves_phys {w : World} (hI : Grid.Inv w) (ops : List Op)
+    (h : PreAllRR w ops) (bl cl : List Nat) (rev : Nat → Bool)
+    (hb : bl.Perm (run w ops).blocklist) (hc : cl.Perm (run w ops).connectionlist)
+    (hanti : ∀ c ∈ cl, rev c = true →
+      dget (run w ops).connection (((run w ops).ckey c).2, ((run w ops).ckey c).1) = none) :
+    let last := Op.reorder (bl.map (run w ops).bname) (Proofs.Grid.reversalNames (run w ops) cl rev)
+    PreAllRR w (ops ++ [last]) ∧ PhysEq w (run w (ops ++ [last])) ∧ Grid.Inv (run w (ops ++ [last])) := by
+  intro last
+  have h0 := compose_preserves_phys hI ops h
+  have hpre := Proofs.Grid.pre_reorder_of_perm h0.2 bl cl rev hb hc hanti
+  have happ : ∀ (w1 : World) (l : List Op), PreAllRR w1 l → pre (run w1 l) last = true → PreAllRR w1 (l ++ [last]) := by
+    intro w1 l
+    induction l generalizing w1 with
+    | nil => intro _ hp; exact ⟨rfl, hp, trivial⟩
+    | cons op r ih => intro hl hp; exact ⟨hl.1, hl.2.1, ih _ hl.2.2 hp⟩
+  have hall := happ w ops h hpre
+  exact ⟨hall, compose_preserves_phys hI _ hall⟩
+
+/-- **The file leg for block names.**  Writing the grid to a data file and reading it back gives every
+    block the name `fileName n = fix_blockname (unfix_blockname n)` (C01 `block_name_cycle`), i.e. acts
+    on the names as `rename_blocks (fileNameMap w)`.  After any `rename_blocks` step within its
+    precondition, whenever the names that come back are still distinct, that trip leaves the physical
+    network unchanged and the grid consistent.  (Names only: the rounding of volumes, distances and
+    areas to the widths of the ELEME/CONNE fields is C01's subject and is checked here by the oracle.) -/
+theorem rename_then_file_names_preserves_phys {w : World} (hI : Grid.Inv w) (m : Dict Name Name) (fix : Bool)
+    (hpre : pre w (.renameBlocks m fix) = true) :
+    let w1 := (step w (.renameBlocks m fix)).w
+    (w1.blocklist.map fun b => Proofs.Grid.fileName (w1.bname b)).Nodup →
+    PhysEq w (step w1 (.renameBlocks (Proofs.Grid.fileNameMap w1) false)).w ∧
+    Grid.Inv (step w1 (.renameBlocks (Proofs.Grid.fileNameMap w1) false)).w := by
+  intro w1 hnd
+  obtain ⟨p1, i1⟩ := rename_preserves_phys hI m fix hpre
+  obtain ⟨p2, i2⟩ := rename_preserves_phys i1 (Proofs.Grid.fileNameMap w1) false (Proofs.Grid.pre_fileNameMap hnd)
+  exact ⟨p1.trans p2, i2⟩
+
+/-- **Names the file format can carry survive the trip.**  If every block name of a consistent grid is
+    `Canonical` (five characters, not of the two shapes `d·' '·d` / `non-digit·'0'·d` that `unfix`/`fix`
+    rewrite — C13 `name_written_then_read`), then the trip through the file is within the precondition
+    of `rename_blocks`, keeps the block list, and every block comes back under the *same* name. -/
+theorem canonical_names_survive_file {w : World} (hI : Grid.Inv w)
+    (hcan : ∀ b ∈ w.blocklist, Proofs.Incon.Canonical (w.bname b)) :
+    let op := Op.renameBlocks (Proofs.Grid.fileNameMap w) false
+    pre w op = true ∧ (step w op).w.blocklist = w.blocklist ∧
+    (∀ b ∈ w.blocklist, (step w op).w.bname b = w.bname b) ∧ PhysEq w (step w op).w := by
+  intro op
+  have hnd : (w.blocklist.map fun b => Proofs.Grid.fileName (w.bname b)).Nodup := by
+    rw [Proofs.Grid.fileNames_canonical hcan]; exact Proofs.Grid.nodup_block_names hI
+  have hpre := Proofs.Grid.pre_fileNameMap hnd
+  obtain ⟨f1, f3⟩ := Proofs.Grid.rename_false_names hI _ hpre
+  refine ⟨hpre, ?_, ?_, (rename_preserves_phys hI _ false hpre).1⟩
+  · simp only [op, step, Proofs.Grid.ofR_w]; exact f1
+  · intro b hb
+    simp only [op, step, Proofs.Grid.ofR_w]
+    rw [f3 b hb, Proofs.Grid.mapName_fileNameMap w hb, Proofs.Grid.fileName_canonical (hcan b hb)]
+
 namespace Examples
 open Props.C08.Examples
 
@@ -200,6 +282,21 @@ example : ((step w0 ro).w.cn 1).b0 = 2 ∧ ((step w0 ro).w.cn 1).d0 = 3 ∧ ((st
     (w0.cn 1).b0 = 1 ∧ (w0.cn 1).d0 = 2 ∧ (w0.cn 1).dircos = some (-1) := by decide
 -- … and its physical signature is the same
 example : conPhys (step w0 ro).w 1 = conPhys w0 1 := by decide
+
+-- explicit permutation [C, A, B] of the blocks, connections in the order [1, 0] with connection 1 reversed
+example : [2, 0, 1].Perm w0.blocklist ∧ [1, 0].Perm w0.connectionlist ∧
+    (∀ c ∈ [1, 0], (fun c => c == 1) c = true → dget w0.connection ((w0.ckey c).2, (w0.ckey c).1) = none) ∧
+    Proofs.Grid.reversalNames w0 [1, 0] (fun c => c == 1) = [(C, B), (A, B)] := by decide
+-- … and after the history [ro, rn] a further explicit step (hypotheses of `history_of_explicit_steps_preserves_phys`)
+example : PreAllRR w0 [ro, rn] ∧ [0, 1, 2].Perm (run w0 [ro, rn]).blocklist ∧ [0, 1].Perm (run w0 [ro, rn]).connectionlist ∧
+    (∀ c ∈ [0, 1], (fun c => c == 0) c = true →
+      dget (run w0 [ro, rn]).connection (((run w0 [ro, rn]).ckey c).2, ((run w0 [ro, rn]).ckey c).1) = none) := by decide
+-- the file leg: the names of w0 are canonical; a grid with the names "ab107"/"ab1 7" is not (they collide in the file)
+example : ∀ b ∈ w0.blocklist, Proofs.Incon.Canonical (w0.bname b) := by decide
+example : pre w0 rn = true ∧
+    ((step w0 rn).w.blocklist.map fun b => Proofs.Grid.fileName ((step w0 rn).w.bname b)).Nodup := by decide
+example : Proofs.Grid.fileName ['a','b','c','0','7'] = ['a','b','c',' ','7'] ∧
+    Proofs.Grid.fileName ['a','b','1',' ','7'] = ['a','b','1','0','7'] := by decide
 
 -- MINC on block B (volume 2) with fractions 1 : 1 : 2 : fracture 1/2, matrix 1/2 and 1, chained B → 1B → 2B
 def mi : Op := .minc ⟨[1, 1, 2], [3, 5], [0, 7, 11], [B], 1000⟩
